@@ -78,6 +78,8 @@ class Type:
                 return -2**31 <= value < 2**31
             elif self._type == BuiltinType.SINGLE:
                 import struct
+                if value != value or value in (float('inf'), float('-inf')):
+                    return False
                 try:
                     struct.pack('>f', value)
                 except OverflowError:
@@ -85,7 +87,10 @@ class Type:
                 else:
                     return True
             else:
-                return True
+                # a DOUBLE holds any finite value; an infinite or NaN
+                # result is a numeric overflow
+                return not (value != value or
+                            value in (float('inf'), float('-inf')))
         if self._type == BuiltinType.STRING and isinstance(value, str):
             return True
         return False
